@@ -200,7 +200,8 @@ class FilteredArray(LArray):
             raise Unsupported("inverse FFT of a spectrum that is still circularly shifted")
         self.src, self.gain, self.kind = spec.src, spec.gain, (spec.kind, kind)
         nd = len(spec.shape)
-        f = z3.Function("ifft_v%d_g%d" % (spec.src.version, spec.gain.version if spec.gain is not None else 0), *([z3.IntSort()] * nd + [z3.RealSort()]))
+        # the filtered array is a function of (input content, gain content): name it after both
+        f = z3.Function("ifft_%s_%s" % (content_key(spec.src), content_key(spec.gain) if spec.gain is not None else "one"), *([z3.IntSort()] * nd + [z3.RealSort()]))
         LArray.__init__(self, spec.shape, lambda idx: SNum(f(*[zterm(i) if core.is_sym(i) else z3.IntVal(int(i)) for i in idx])), "complex128")
 
     @property
